@@ -396,8 +396,9 @@ def _round_to_prec(z, prec, rounding):
     return _mk(z3.ToReal(m) / q_val(sh), 'dec')
 
 
-def round_spec(mode, m, y):
-    """Textbook definition: integer m is y rounded under `mode` (z3 Bool)."""
+def round_spec(mode, m, y, pure=False):
+    """Textbook definition: integer m is y rounded under `mode` (z3 Bool).
+    pure=True: no fresh variables (usable inside an obligation, which is negated)."""
     mr = z3.ToReal(m)
     d = y - mr                      # d > 0: rounded down, d < 0: rounded up
     half = z3.Q(1, 2)
@@ -422,7 +423,12 @@ def round_spec(mode, m, y):
         return z3.And(-half <= d, d <= half,
                       z3.Implies(z3.Or(d == half, d == -half), m % 2 == 0))
     if mode == R.ROUND_05UP:
-        t = E.fresh('int', 'trunc')
+        if pure:
+            # trunc(y) expressed through m itself: m in {t, t +- 1}
+            fl = z3.ToInt(y)                      # floor
+            t = z3.If(z3.Or(y >= 0, z3.ToReal(fl) == y), fl, fl + 1)
+        else:
+            t = E.fresh('int', 'trunc')
         tr = z3.ToReal(t)
         trunc = z3.If(y >= 0, z3.And(tr <= y, y < tr + 1),
                       z3.And(tr - 1 < y, y <= tr))
@@ -432,6 +438,42 @@ def round_spec(mode, m, y):
                       z3.If(y == tr, m == t,
                             z3.If(z3.Or(at % 10 == 0, at % 10 == 5), m == away,
                                   m == t)))
+    raise ValueError("Invalid rounding mode: %r" % (mode,))
+
+
+def div_round_spec(mode, m, x, y):
+    """integers, y > 0: m is x / y rounded under `mode`; d = x - m*y"""
+    d = x - m * y
+    R = ROUNDING
+    if mode == R.ROUND_FLOOR:
+        return z3.And(0 <= d, d < y)
+    if mode == R.ROUND_CEILING:
+        return z3.And(-y < d, d <= 0)
+    if mode == R.ROUND_DOWN:
+        return z3.If(x >= 0, z3.And(0 <= d, d < y), z3.And(-y < d, d <= 0))
+    if mode == R.ROUND_UP:
+        return z3.If(x >= 0, z3.And(-y < d, d <= 0), z3.And(0 <= d, d < y))
+    if mode == R.ROUND_HALF_UP:
+        return z3.And(-y <= 2 * d, 2 * d <= y,
+                      z3.Implies(2 * d == y, x < 0), z3.Implies(2 * d == -y, x > 0))
+    if mode == R.ROUND_HALF_DOWN:
+        return z3.And(-y <= 2 * d, 2 * d <= y,
+                      z3.Implies(2 * d == y, x > 0), z3.Implies(2 * d == -y, x < 0))
+    if mode == R.ROUND_HALF_EVEN:
+        return z3.And(-y <= 2 * d, 2 * d <= y,
+                      z3.Implies(z3.Or(2 * d == y, 2 * d == -y), m % 2 == 0))
+    if mode == R.ROUND_05UP:
+        # t = trunc(x / y) is m or m -+ 1; state it through d
+        exact = d == 0
+        # candidates for t: m (not moved) or m - sign (moved away from zero)
+        t_same = z3.If(x >= 0, z3.And(0 <= d, d < y), z3.And(-y < d, d <= 0))
+        t_moved = z3.If(x >= 0, z3.And(-y < d, d < 0), z3.And(0 < d, d < y))
+        am = z3.If(m >= 0, m, -m)
+        tm = z3.If(x >= 0, m - 1, m + 1)          # t when moved
+        atm = z3.If(tm >= 0, tm, -tm)
+        return z3.Or(exact,
+                     z3.And(t_same, d != 0, am % 10 != 0, am % 10 != 5),
+                     z3.And(t_moved, z3.Or(atm % 10 == 0, atm % 10 == 5)))
     raise ValueError("Invalid rounding mode: %r" % (mode,))
 
 
@@ -484,7 +526,10 @@ class SymInt:
     def __rmul__(self, o): return self._bin(o, 'mul', True)
     def __neg__(self): return SymInt._mk(-self.z)
     def __pos__(self): return self
-    def __abs__(self): return SymInt._mk(z3.If(self.z >= 0, self.z, -self.z))
+    def __abs__(self):
+        if E.branch(self.z >= 0):
+            return self
+        return SymInt._mk(-self.z)
 
     def __truediv__(self, o):
         return SymDec(z3.ToReal(self.z)).__truediv__(o)
